@@ -466,7 +466,7 @@ def add_sweeten(draw, classes, feats):
         ops, inv = [], []
         kinds = draw(st.lists(st.sampled_from(
             ['remove_defaults', 'unders_to_dashes', 'rename', 'add', 'attrs', 'hidden',
-             'remove']), min_size=1, max_size=3, unique=True))
+             'remove', 'int_add', 'int_add']), min_size=1, max_size=3, unique=True))
         for k in kinds:
             if k == 'remove_defaults' and opt:
                 ops.append(['remove_defaults'])
@@ -496,6 +496,13 @@ def add_sweeten(draw, classes, feats):
                 else:
                     sub = draw(st.lists(st.sampled_from(names), unique=True, max_size=len(names)))
                     c['attrs_hook'] = list(sub)
+            elif k == 'int_add':
+                # not idempotent: 1-based in the file, 0-based in memory
+                ints = [p['name'] for p in c['params'] if p.get('type') == 'int']
+                if ints:
+                    pn = draw(st.sampled_from(ints))
+                    ops.append(['int_add', pn, 1])
+                    inv.append(['int_add', pn, -1])
             elif k == 'hidden':
                 c['hidden'] = True
             elif k == 'remove' and opt and not inverse:
